@@ -71,6 +71,7 @@ type Contract struct {
 	HasMod    bool
 	Pure      bool
 	Trusted   bool // lib contract: not verified, only assumed
+	Lib       bool // iface / extern contract (assumed; listed in evidence where it is used)
 	Safety    map[string]bool
 	LoopInv   map[int][]Clause
 	LoopDec   map[int]*Clause
@@ -556,6 +557,7 @@ func parseSpecs(lines []ContractLine) *Specs {
 			if kw != "func" {
 				c.NoBody = true
 				c.Trusted = true
+				c.Lib = true
 			}
 			// optional "(p1, p2) (r1, r2)" names for iface/extern
 			rest := strings.TrimSpace(strings.TrimPrefix(body, f[0]))
